@@ -164,7 +164,7 @@ outer:
 				pi.Seek(last)
 				// Take the code so far.
 				if code.Len() > 0 {
-					expr := NewExpression(strings.TrimSpace(code.String()), from, pi.Position())
+					expr := NewExpression(strings.TrimSpace(code.String()), goCodeStart(pi, from, code.String()), pi.Position())
 					tf.Nodes = append(tf.Nodes, TemplateFileGoExpression{Expression: expr})
 				}
 				// Carry on parsing.
@@ -180,7 +180,7 @@ outer:
 			code.WriteString(newLine)
 			if _, isEOF, _ := parse.EOF[string]().Parse(pi); isEOF {
 				if code.Len() > 0 {
-					expr := NewExpression(strings.TrimSpace(code.String()), from, pi.Position())
+					expr := NewExpression(strings.TrimSpace(code.String()), goCodeStart(pi, from, code.String()), pi.Position())
 					tf.Nodes = append(tf.Nodes, TemplateFileGoExpression{Expression: expr})
 				}
 				// Stop parsing.
@@ -190,4 +190,14 @@ outer:
 	}
 
 	return tf, true, nil
+}
+
+// goCodeStart returns the position of the first character of the Go code that remains once the white space in
+// front of it has been trimmed (strings.TrimSpace also removes Unicode white space, which the parser does not skip).
+func goCodeStart(pi *parse.Input, from parse.Position, code string) parse.Position {
+	leading := len(code) - len(strings.TrimLeftFunc(code, unicode.IsSpace))
+	if leading == 0 {
+		return from
+	}
+	return pi.PositionAt(from.Index + leading)
 }
